@@ -583,8 +583,20 @@ class SSETransport(Transport):
                                 future, timeout=self.timeout
                             )
                             logger.debug(f"Got async SSE response for {message_id}")
-                            # Route to incoming stream
-                            await self._route_incoming_message(response_message)
+                            # Route to incoming stream; what arrived under the
+                            # request's id may not be a message at all - the request
+                            # still has to end
+                            if not await self._route_incoming_message(response_message):
+                                await self._route_incoming_message(
+                                    {
+                                        "jsonrpc": "2.0",
+                                        "id": request_id,
+                                        "error": {
+                                            "code": -32603,
+                                            "message": f"SSE answer is not a JSON-RPC message: {str(response_message)[:100]}",
+                                        },
+                                    }
+                                )
                         except asyncio.TimeoutError:
                             logger.error(
                                 f"Timeout waiting for SSE response to message {message_id}"
